@@ -210,7 +210,11 @@ where
             });
         };
 
-        assert!(rem.ends_with(')'));
+        if !rem.ends_with(')') {
+            return Err(format!(
+                "invalid typ clause '{s}': expected closing bracket"
+            ));
+        }
         let rem = rem.trim_end_matches(')');
         let args = rem
             .split(", ")
